@@ -222,6 +222,8 @@ type world struct {
 	pruneErrs []string
 	c0, c1    int // commit numbers (exclusive, inclusive) made by the pruner during the last event
 	problems  []problem
+
+	fullHash bool // probes built by this world ask the full state question set by hash too (see probe.fullHash)
 }
 
 type problem struct {
@@ -517,7 +519,7 @@ func errClass(e string) string {
 // ---- probes & twin cache -------------------------------------------------------------------------------------
 
 func (w *world) probe(canon []*chain.Entry, extra []*chain.Entry, evFrom ...uint64) *probe {
-	p := &probe{blockAt: map[felt.Felt]int64{}, txAt: map[felt.Felt]int64{}, msgAt: map[eth.Hash]int64{}}
+	p := &probe{blockAt: map[felt.Felt]int64{}, txAt: map[felt.Felt]int64{}, msgAt: map[eth.Hash]int64{}, fullHash: w.fullHash}
 	all := append(append([]*chain.Entry{}, w.all...), extra...)
 	for _, e := range all {
 		if e.Block.Number+1 > p.maxNumber {
@@ -564,7 +566,7 @@ func (w *world) probe(canon []*chain.Entry, extra []*chain.Entry, evFrom ...uint
 
 func (p *probe) digest() uint64 {
 	h := fnv.New64a()
-	fmt.Fprintf(h, "%d|%v|", p.maxNumber, p.evFrom)
+	fmt.Fprintf(h, "%d|%v|%v|", p.maxNumber, p.evFrom, p.fullHash)
 	for _, b := range p.blocks {
 		fmt.Fprintf(h, "%s@%d,", b.String(), p.blockAt[b])
 	}
